@@ -1,6 +1,7 @@
 import StorageModel.C04.Exact
 import StorageModel.C04.SpecProofs
 import StorageModel.C04.OldRoute
+import StorageModel.C04.MarksProofs
 /-
   C04 — Foreign keys: targets exist, back-references exact, delete restricts or cascades.
 
@@ -272,14 +273,15 @@ theorem cascade_terminates (σ : Schema) (s : St) (id : Bytes) :
     cycles and self references included, with or without child-store data, through A or through the child
     store: `DeleteById` on an existing entity succeeds, and removes the target and exactly the entities that
     refer to it transitively through `boss`; every other entity keeps its stored values, table B is
-    untouched. -/
+    untouched.  (`hp`: no entity constraint of the caller is vetoing deletes during the operation — with one,
+    see `protected_cascade_fails`.) -/
 theorem cascade_exact (σ : Schema) (s : St) (id : Bytes) (op : Op) (hop : op = .deleteA id ∨ op = .deleteC id)
-    (hI : Inv σ s) (hc : s.as.contains id = true) :
+    (hI : Inv σ s) (hc : s.as.contains id = true) (hp : σ.protect = none) :
     ∃ s', apply σ s op = .ok s' ∧
       s'.bs = s.bs ∧
       (∀ k e, s'.as.lookup k = some e → s.as.lookup k = some e) ∧
       (∀ k, s'.as.lookup k = none ↔ (s.as.lookup k = none ∨ k = id ∨ Reach s.as id k)) := by
-  obtain ⟨s', h⟩ := deleteA_succeeds (s0 := s) hI (Sub.refl s) hc
+  obtain ⟨s', h⟩ := deleteA_succeeds (s0 := s) hI (Sub.refl s) hc hp
   rcases hop with rfl | rfl
   · exact ⟨s', h, deleteA_exact σ s s' id hI h⟩
   · exact ⟨s', h, deleteA_exact σ s s' id hI h⟩
@@ -298,11 +300,26 @@ theorem cascade_exact_of_success (σ : Schema) (s s' : St) (id : Bytes) (op : Op
 /-- a delete of an A entity never fails with the reference-exists error, whatever the state: the only
     failures are not-found (missing id) and, outside invariant states only, a vanished entity bucket -/
 theorem delete_A_errors (σ : Schema) (s : St) (id : Bytes) (e : Err) (h : apply σ s (.deleteA id) = .error e) :
-    e = .notFound ∨ e = .other :=  by
-  rcases deleteA_error σ _ _ _ _ _ h with h1 | h1 | h1
+    e = .notFound ∨ e = .other ∨ (e = .veto ∧ σ.protect ≠ none) :=  by
+  rcases deleteA_error σ _ _ _ _ _ h with h1 | h1 | h1 | h1
   · exact Or.inl h1
-  · exact Or.inr h1
+  · exact Or.inr (Or.inl h1)
   · subst h1; exact absurd h (cascade_terminates σ s id).1
+  · exact Or.inr (Or.inr h1)
+
+/-- **A cascade that meets the protected entity fails as a whole**: while the caller's entity constraint refuses the
+    delete of `v`, a delete of `id` whose cascade would have to remove `v` (`v = id` or `v` refers to `id`
+    transitively) does not succeed — and a failed operation leaves the state (`step`) -/
+theorem protected_cascade_fails (σ : Schema) (s : St) (id v : Bytes) (hI : Inv σ s)
+    (hv : v = id ∨ Reach s.as id v) : ¬ ∃ s', apply σ s (.deleteAV id v) = .ok s' := by
+  rintro ⟨s', h⟩
+  have hn := not_protectedIn_of_ok (σ := σ.withProtect v) (hI.of_schema rfl) h
+  have hm : v ∈ closure s.as [id] := by
+    rw [mem_closure]
+    rcases hv with rfl | hr
+    · exact Or.inl (by simp)
+    · exact Or.inr ⟨id, by simp, hr⟩
+  simp [Schema.protectedIn, Schema.withProtect, hm] at hn
 
 /-- **Cascade on B is exact**, for every id: a successful `DeleteById` on B removes `b` from B and from A
     exactly the entities that refer to `b` through `dep` together with their transitive `boss`
@@ -319,13 +336,14 @@ theorem cascade_exact_B (σ : Schema) (s s' : St) (b : Bytes) (hI : Inv σ s)
     refused with the reference-exists error — and it is refused only if some entity refers to it through
     `owner`, through `dep` in the restrict variant, or through a mentor / guard fk declared by a child store.
     No other error, no divergence. -/
-theorem delete_outcomes (σ : Schema) (s : St) (b : Bytes) (hF : FullInv σ s) (hc : s.bs.contains b = true) :
+theorem delete_outcomes (σ : Schema) (s : St) (b : Bytes) (hF : FullInv σ s) (hc : s.bs.contains b = true)
+    (hp : σ.protect = none) :
     (∃ s', apply σ s (.deleteB b) = .ok s') ∨
     (apply σ s (.deleteB b) = .error .refExists ∧
       ((∃ k e, s.as.lookup k = some e ∧ evalVal e.owner = b ∧ b ≠ []) ∨
        (σ.depCascade = false ∧ ∃ k e, s.as.lookup k = some e ∧ e.dep = some b) ∨
        (∃ c k e, s.as.lookup k = some e ∧ (mentorOf σ c e = some b ∨ guardOf σ c e = some b)))) := by
-  rcases deleteB_progress hF.1 hc with h | h
+  rcases deleteB_progress hF.1 hc hp with h | h
   · exact Or.inl h
   · exact Or.inr ⟨h, deleteB_refExists_inv hF.1 hF.2 h⟩
 
@@ -397,6 +415,28 @@ theorem child_create_backrefs_exact (σ : Schema) (s s' : St) (c : Child) (id : 
           have h' : s'.bs.contains (evalVal (createdEnt s c id e x).owner) = true := this
           rw [hfields.1] at h'; exact h')
       (Or.inl ⟨id, _, hlk, by rw [hfields.1], hne⟩) hord
+
+/-- **`cascade_marks_balanced`** — the "cascading delete in progress" map lives in the `MutateContext`, outlives the
+    operation and (with a reused context) the transaction, and is NOT rolled back with the database.  In the
+    state-passing model of the code (`C04/Marks.lean`: entry added unless present, loop over the current map, entry
+    removed on every exit iff this call added it) — after ANY operation, successful or failed (a vetoed or otherwise
+    failing cascade returns out of the middle of the referrer loop), from any state and any map `m`: the map is `m`
+    again.  In particular it is empty again whenever it was empty before. -/
+theorem cascade_marks_balanced (σ : Schema) (m : Ctx) (s : St) (op : Op) : (applyM σ m s op).2 = m :=
+  applyM_balanced σ m s op
+
+/-- … **hence later cascades are exact**: whatever operation `op1` ran before on the same context — also one that
+    failed part-way —, the next operation `op2` (in the same transaction, or in a later one when the caller reuses the
+    context object) computes exactly what `apply` computes on a fresh context; all theorems above apply to it. -/
+theorem later_cascades_exact (σ : Schema) (s1 s2 : St) (op1 op2 : Op) :
+    (applyM σ (applyM σ {} s1 op1).2 s2 op2).1 = apply σ s2 op2 := by
+  rw [cascade_marks_balanced]; exact applyM_apply σ {} s2 op2 rfl
+
+/-- a whole history on ONE reused `MutateContext` — rolled-back transactions included — reaches the state of the same
+    history with a fresh context per transaction, with an empty in-progress map at the end -/
+theorem context_reuse_exact (σ : Schema) (reuse : Bool) (txs : List (List Op)) :
+    runHistoryM σ reuse txs = (runHistory σ txs, {}) :=
+  runHistoryM_eq σ reuse txs
 
 /-- **The referrer lookup is exact for EVERY byte string id** (quotes, backslashes, keywords, anything):
     the cursor of `fkDeleteCascadeConstraint` yields exactly the entities whose stored fk value is `id`. -/
@@ -583,6 +623,22 @@ example : (step σ1 (runHistory σ1 histSiblings)
 
 /-- non-vacuity of `FullInv` with child-declared fks in use: the state above satisfies it (it is reachable) -/
 example : FullInv σ1 (runHistory σ1 histSiblings) := full_reachable σ1 histSiblings
+
+/-! #### a cascade that fails part-way (seeded C04-11), on a reused context -/
+
+/-- r ← z ← x ← y (boss chain below the self-referencing root r) -/
+def histChain : List (List Op) :=
+  [[.createA idR { owner := none, boss := some idR, dep := none }], [.createA idZ { owner := none, boss := some idR, dep := none }],
+   [.createA idX { owner := none, boss := some idZ, dep := none }], [.createA idY { owner := none, boss := some idX, dep := none }]]
+
+/-- deleting x while the caller's entity constraint protects its referrer y fails with the veto and (rollback) changes
+    nothing; the in-progress map of the context is empty afterwards; the next delete on the SAME context — z, which
+    x refers to — cascades through x and y as if nothing had happened -/
+example : (step σ0 (runHistory σ0 histChain) (.deleteAV idX idY)).2 = some .veto ∧
+    (applyM σ0 {} (runHistory σ0 histChain) (.deleteAV idX idY)).2 = {} ∧
+    (applyM σ0 (applyM σ0 {} (runHistory σ0 histChain) (.deleteAV idX idY)).2 (runHistory σ0 histChain) (.deleteA idZ)).2 = {} ∧
+    (runHistoryM σ0 true (histChain ++ [[.deleteAV idX idY], [.deleteA idZ]])).1.as.keys = [idR] ∧
+    (runHistoryM σ0 true (histChain ++ [[.deleteAV idX idY], [.deleteA idZ]])).2 = {} := by decide
 
 /-! #### why commit 7aca2fc was needed: the referrer lookup through `Sprintf` + `ast.Parse`
 
